@@ -262,7 +262,7 @@ def gen_longref(rng, kind, tier):
 
 
 def gen_cases(rng, tier):
-    per = 20 if tier == 'quick' else 900
+    per = 20 if tier == 'quick' else 250
     cases = c04.corpus_cases() + corpus_cases()
     gen = c04gen.gen_cases(rng, tier, n=per, small=True)
     # serialisation is about structure, not coordinates: keep byte strings moderate
@@ -284,7 +284,7 @@ def gen_cases(rng, tier):
             c['flavour'] = 'emptyname'
             cases.append(c)
             k += 1
-    nf = 9 if tier == 'quick' else 400
+    nf = 9 if tier == 'quick' else 120
     for kind in ('bai', 'csi', 'tabix'):
         for _ in range(nf):
             cases.append(gen_foreign(rng, kind))
@@ -378,7 +378,7 @@ ASSUME = [
 CLAIM = dict(
     text='Machine-checked proof (Coq 8.16.1) over the executable model of the index core and its byte-level writers/readers: statistics kept by Add equal the true counts and spans (stats_true); '
          'BAI: reading what WriteIndex wrote gives the sorted index, writing that gives identical bytes, and every query and statistic is unchanged (index_io_roundtrip, chunks_preserved); the same for tabix (tabix_io_roundtrip, tabix_zero_refs_roundtrip). '
-         'The CSI v1/v2 round trip is validated on every run (model evaluated inside Coq against the implementation, on built indexes and on independently written foreign files), its proof stops at the shared blocks (chunks_preserved_partial, stats_preserved_partial, index_io_roundtrip_partial).',
+         'the same for CSI v1/v2 with any aux bytes up to the record counts v1 drops (csi_io_roundtrip, csi_chunks_preserved); statistics also for CSI and tabix and through write/read (csi_stats_true, tabix_stats_true). The byte-level model is evaluated inside Coq against the implementation on every run, on built indexes and on independently written foreign files.',
     note='Trusted: Coq kernel, the hand-written byte-level model (validated each run), generators/oracle/spec-level writer. No axioms.',
     technique='Coq proof over hand-written executable model + vm_compute correspondence + independent counters / spec-level writer',
     design='6/C15')
